@@ -55,6 +55,20 @@ def decorate(plan, seed, p_clock=0.6, p_int=0.6):
     plan['faults'] = out
     for o in ops:
         if o['op'] == 'solve' and rng.random() < 0.4: o['sigint_callback'] = True
+    # time passes between two Step calls (the caller does something else): a TimeLimits condition can become true while
+    # the solver is idle, and the next Step must see it
+    if plan.get('clock'):
+        r3 = sub_rng(seed, 'plan.c05.idle')
+        k = 0
+        while k < len(ops) - 1:
+            if ops[k]['op'] == 'step' and ops[k + 1]['op'] in ('step', 'solve') and r3.random() < 0.5:
+                ops.insert(k + 1, {'op': 'clock', 'dt': r3.choice([0.5, 30.0, 4000.0, 90000.0]), 'cpu': r3.random() < 0.7}); k += 1
+            k += 1
+        # split multi-step ops so that there is an idle moment to use
+        for o in list(ops):
+            if o['op'] == 'step' and o.get('n', 1) > 2 and r3.random() < 0.5:
+                i = ops.index(o); n = o['n']; a = r3.randint(1, n - 1)
+                ops[i:i + 1] = [{'op': 'step', 'n': a}, {'op': 'clock', 'dt': r3.choice([30.0, 4000.0, 90000.0]), 'cpu': True}, {'op': 'step', 'n': n - a}]
     # stop, save, and resume in a 'new process' (or carry on with a copy): limits, termination and exit requests have to
     # be honoured by the solver that is actually running
     r2 = sub_rng(seed, 'plan.c05.resume')
